@@ -203,9 +203,76 @@ def run(chk, ctx) -> None:
     _refusals(r, ctx)        # a bet/raise is refused once the per-street cap is reached
     _raise_effects(r, ctx)   # every bet/raise counts towards the cap
     chk.floor('C11.semantics', 4)
+    _defaults(chk, ctx, variants)
+    _game_properties(chk, ctx)
     _create_state(chk, ctx, variants)
     _game_call(chk, ctx)
     _codes(chk, ctx, sev)
+
+
+WANT_DEFAULTS = {'mode': 'Mode.TOURNAMENT', 'starting_board_count': '1', 'divmod': 'divmod', 'rake': 'rake'}
+
+
+def _kw_defaults(fn):
+    a = fn.args
+    return {x.arg: (ast.unparse(d) if d is not None else None) for x, d in zip(a.kwonlyargs, a.kw_defaults)}
+
+
+def _defaults(chk, ctx, variants) -> None:
+    """the optional game settings default alike everywhere: tournament mode, ONE board, the default divmod and rake"""
+    prog = ctx.prog
+    seen = set()
+    fns = [prog.func('Poker.__init__')]
+    for ci in variants:
+        for name in ('__init__', 'create_state'):
+            fi = prog.resolve_method(ci, name)
+            if fi is not None:
+                fns.append(fi)
+    for fi in fns:
+        if fi.qualname in seen:
+            continue
+        seen.add(fi.qualname)
+        got = _kw_defaults(fi.node)
+        chk.ob('C11.defaults', fi.qualname, got == WANT_DEFAULTS, fi.loc,
+               'keyword-only game settings and their defaults (tournament mode, one board, default pot division and rake)', got=got, want=WANT_DEFAULTS)
+    st = ctx.state
+    got = {}
+    for k in WANT_DEFAULTS:
+        node = st.attr_nodes.get(k)
+        got[k] = ast.unparse(node.value) if isinstance(node, ast.AnnAssign) and node.value is not None else None
+    chk.ob('C11.defaults', 'State', got == WANT_DEFAULTS, st.loc, 'the same defaults on State itself', got=got, want=WANT_DEFAULTS)
+    chk.floor('C11.defaults', 14)
+
+
+def _game_properties(chk, ctx) -> None:
+    """derived read-only facts of a game that the hand-history writer reads back"""
+    import pkstatic.terms as T
+    prog = ctx.prog
+    poker = prog.cls('Poker')
+    want = {
+        'small_bet': 'self.streets[0].min_completion_betting_or_raising_amount',
+        'big_bet': 'self.streets[-1].min_completion_betting_or_raising_amount',
+        'button_status': 'any(street.opening == Opening.POSITION for street in self.streets)',
+        'max_hole_card_count': 'sum(len(street.hole_dealing_statuses) for street in self.streets)',
+        'max_down_card_count': 'sum(street.hole_dealing_statuses.count(False) for street in self.streets)',
+        'max_up_card_count': 'sum(street.hole_dealing_statuses.count(True) for street in self.streets)',
+        'max_board_card_count': 'sum(street.board_dealing_count for street in self.streets)',
+    }
+    for name, src in want.items():
+        fi = poker.methods.get(name)
+        if fi is None:
+            raise AnalysisError(f'Poker.{name} vanished')
+        rets = [p.outcome[1] for p in ctx.paths(fi) if p.returned]
+        chk.ob('C11.game_properties', f'Poker.{name}', rets == [T.spec(src)], fi.loc, 'derived fact of the game definition',
+               got=[T.show(r) for r in rets], want=src)
+    fi = poker.methods.get('min_bet')
+    ok = False
+    if fi is not None:
+        diff = T.spec('self.small_bet != self.big_bet', boolean=True)
+        ok = any(p.raised and diff in p.conds() for p in ctx.paths(fi)) and \
+            any(p.returned and T.mk_not(diff) in p.conds() and p.outcome[1] == ('self', 'small_bet') for p in ctx.paths(fi))
+    chk.ob('C11.game_properties', 'Poker.min_bet', ok, fi.loc if fi else poker.loc,
+           'a single minimum bet exists only when small and big bet coincide (otherwise asking for it is an error)')
 
 
 def _name_of(e):
